@@ -1194,9 +1194,12 @@ func (s *State) evalStringInfixExpression(operator token.Type, left, right objec
 		rightVal := right.(object.String).Value
 		return object.String{Value: leftVal + rightVal}
 	case operator == token.ASTERISK && rightIsInt:
-		n := len(leftVal) * int(rightVal)
 		if rightVal < 0 {
 			return s.Errorf("right operand of * on strings must be a positive integer, got %d", rightVal)
+		}
+		n, ok := repeatLen(len(leftVal), rightVal)
+		if !ok {
+			return s.Errorf("string repeat count %d too large", rightVal)
 		}
 		object.MustBeOk(n / object.ObjectSize)
 		return object.String{Value: strings.Repeat(leftVal, int(rightVal))}
@@ -1204,6 +1207,17 @@ func (s *State) evalStringInfixExpression(operator token.Type, left, right objec
 		return s.Errorf("unknown operator: %s %s %s",
 			left.Type(), operator, right.Type())
 	}
+}
+
+// repeatLen returns l*n (n >= 0), or false if that doesn't fit in an int.
+func repeatLen(l int, n int64) (int, bool) {
+	if l == 0 || n == 0 {
+		return 0, true
+	}
+	if n > int64(math.MaxInt/l) {
+		return 0, false
+	}
+	return l * int(n), true
 }
 
 func (s *State) evalArrayInfixExpression(operator token.Type, left, right object.Object) object.Object {
@@ -1218,7 +1232,11 @@ func (s *State) evalArrayInfixExpression(operator token.Type, left, right object
 		if rightVal < 0 {
 			return s.NewError("right operand of * on arrays must be a positive integer")
 		}
-		result := object.MakeObjectSlice(len(leftVal) * int(rightVal))
+		n, ok := repeatLen(len(leftVal), rightVal)
+		if !ok {
+			return s.Errorf("array repeat count %d too large", rightVal)
+		}
+		result := object.MakeObjectSlice(n)
 		for range rightVal {
 			result = append(result, leftVal...)
 		}
